@@ -199,6 +199,25 @@ def correspond(ctx):
     c.run()
     c.mirror_ref().run()
 
+    # --- sign_digest on bytes-like digests (model: the underlying bytes) ------------------------------
+    from ecdsa import util
+    c = ParCorr(ctx, "sign_digest")
+    specs = [(t.token(m), t.curve(m), t.n, 3e-5) for t in E.get_fixed_toys()[:3] for m in ("j", "a")]
+    specs += [(E.token(cv), cv, int(cv.order), E.linecost(cv)) for cv in E.small_named()[: (2 if q else 4)]]
+    for tok, cv, n, cost in specs:
+        for kind in ("bytes",) + E.CONTAINERS:
+            for L in sorted({1, 2, 4, cv.baselen, 4 * ((cv.baselen + 4) // 4), 4 * ((cv.baselen + 4) // 4) + 8}):
+                for allow in (1, 0):
+                    d, k = rng.randrange(1, n), rng.randrange(1, n)
+                    dg = bytes(rng.randrange(256) for _ in range(L))
+
+                    def th(cv=cv, d=d, k=k, dg=dg, kind=kind, allow=allow):
+                        return hx(E.signing_key(cv, d).sign_digest(E.wrap_bytes(dg, kind), sigencode=util.sigencode_string, k=k,
+                                                                   allow_truncate=bool(allow)))
+                    c.add("ecdsa_sign_digest %s %d %s %d string %d" % (tok, d, hx(dg), k, allow), th,
+                          "digest as %s, %s" % (kind, "longer than order" if L > cv.baselen else "fits"), cost)
+    c.run()
+
 
 # ------------------------------------------------------------------------------------------------
 # search: cases are JSON-able dicts; `run_case` returns None (holds) or {"observed", "expected"}
@@ -264,7 +283,8 @@ def case_sign_digest(i):
     p, a, G, n = cp
     d, k, dg, allow = i["d"], i["k"], bytes.fromhex(i["digest"]), i["allow_truncate"]
     te = expected_truncate(dg, n, cv.baselen, allow)
-    got = E.call(lambda: util.sigdecode_string(E.signing_key(cv, d).sign_digest(dg, sigencode=util.sigencode_string, k=k,
+    dgo = E.wrap_bytes(dg, i.get("container"))
+    got = E.call(lambda: util.sigdecode_string(E.signing_key(cv, d).sign_digest(dgo, sigencode=util.sigencode_string, k=k,
                                                                                allow_truncate=allow), n))
     if te[0] == "err":
         ok, want = (got[0] == "err" and got[2] == te[1]), te[1]
@@ -378,6 +398,16 @@ def search_toy(ctx):
                         if check(ctx, {"kind": "sign_digest", "curve": spec, "d": d, "k": k, "digest": dg.hex(), "allow_truncate": allow},
                                  "toy sign_digest %s" % ("allow" if allow else "strict")) and E.capped(ctx):
                             return
+                # the same entry point on non-bytes bytes-like digests of 1..8 bytes (items of 1, 2 or 4 bytes)
+                for L in (1, 2, 4, 8):
+                    for _ in range(2):
+                        dg = bytes(rng.randrange(256) for _ in range(L))
+                        for kind in E.CONTAINERS:
+                            for allow in (True, False):
+                                if check(ctx, {"kind": "sign_digest", "curve": spec, "d": d, "k": k, "digest": dg.hex(),
+                                               "allow_truncate": allow, "container": kind},
+                                         "toy sign_digest %s digest as %s" % ("allow" if allow else "strict", kind)) and E.capped(ctx):
+                                    return
 
 
 def search_named(ctx):
@@ -406,7 +436,17 @@ def search_named(ctx):
                 cases.append(("named pubkey", {"kind": "pubkey", "curve": spec, "d": d}))
                 cases.append(("named sign_number e in {0,n,>n}", {"kind": "sign", "curve": spec, "d": d, "k": rng.randrange(1, n),
                                                                   "e": rng.choice((0, n, n + 1, rng.getrandbits(bitlen(n) + 9)))}))
-    E.par_search(ctx, run_case, cases)
+    # sign_digest on non-bytes bytes-like digests, incl. digests longer than the order in BYTES but not in ITEMS
+    extra = E.container_variants(rng, [x for x in cases if x[1]["kind"] == "sign_digest"], 0.3)
+    for cv in E.small_named():
+        n = int(cv.order)
+        for kind in E.CONTAINERS:
+            for allow in (True, False):
+                dg = bytes(rng.randrange(256) for _ in range(4 * ((cv.baselen + 4) // 4) + 4 * rng.randrange(0, 3)))
+                extra.append(("named long digest as %s %s" % (kind, "allow" if allow else "strict"),
+                              {"kind": "sign_digest", "curve": E.curve_spec(cv), "d": rng.randrange(1, n), "k": rng.randrange(1, n),
+                               "digest": dg.hex(), "allow_truncate": allow, "container": kind}))
+    E.par_search(ctx, run_case, cases + extra)
 
 
 def replay(rec):
